@@ -2,7 +2,8 @@
     reference vs observed geth) and the property predicate [Pb] on the observed trace. *)
 From Coq Require Import ZArith List Bool.
 Import ListNotations.
-Require Import Nib.C03.Model Nib.C03.Ref Nib.C03.Spec.
+Require Import Nib.C03.Model Nib.C03.Ref Nib.C03.Spec Nib.C03.Msg.
+Require Nib.Gen.C03Facts.
 Local Open Scope Z_scope.
 
 Record prog_case := {
@@ -12,7 +13,12 @@ Record prog_case := {
   pc_nib : prog_obs; pc_geth : prog_obs
 }.
 
-Inductive case : Type := CSeq (t : trace) | CProg (p : prog_case).
+(** driver (c): a history of messages; [mc_hdrs] = the header of every message as the driver built
+    it (sender = its row index, nonce, gas limit, price, value, what IntrinsicGas looks at, the gas
+    Nibiru reported), with the nonce bracket of ApplyEvmMsg as the only known StateDB calls *)
+Record msgs_case := { mc_trace : msgs_trace; mc_hdrs : list msg }.
+
+Inductive case : Type := CSeq (t : trace) | CProg (p : prog_case) | CMsgs (m : msgs_case).
 
 (** the keeper table as the driver reads it: the code id of an account whose bytecode cannot be
     retrieved from the (shared) code table is reported as -3 *)
@@ -66,11 +72,59 @@ Definition mismatch_prog (p : prog_case) : bool :=
   if p_rej (pc_nib p) || (pc_used_pre p <? 0) then false
   else negb (p_gas (pc_nib p) =? pc_used_pre p - gas_to_refund (pc_quot p) (pc_refund p) (pc_used_pre p)).
 
+(** ** driver (c): the message-layer model [deliver] against the observed history.  The block
+    state before each message is rebuilt from the OBSERVED table (the interpreter is not modelled,
+    so the effect of an executed message is not predicted), the pointer is threaded through the
+    history, and [clears_on_error] is the value extracted from the source.  Compared per message:
+    the verdict rejected / executed (ante: EOA, funds, nonce; ApplyEvmMsg: intrinsic gas); after a
+    rejected message the whole table (no effect); after an executed message the sender's nonce. *)
+Definition nth_row (rows : list arow) (a : addr) : option arow :=
+  if a <? 0 then None else nth_error rows (Z.to_nat a).
+
+Definition keeper_of_rows (rows : list arow) : keeper :=
+  {| k_acct := fun a => match nth_row rows a with
+                        | Some (true, b, n, c, _) => Some {| ka_bal := to_native b; ka_nonce := n; ka_code := c |}
+                        | _ => None
+                        end;
+     k_stor := fun a k => match nth_row rows a with
+                          | Some (_, _, _, _, st) => nth (Z.to_nat k) st 0
+                          | None => 0
+                          end;
+     k_code := fun _ => true |}.
+
+Definition row_nonce (rows : list arow) (a : addr) : Z :=
+  match nth_row rows a with Some (_, _, n, _, _) => n | None => -1 end.
+
+Definition msg_keys : list key := [0; 1; 2; 3].
+
+Fixpoint model_msgs (clears : bool) (prev : list arow) (ptr : option full) (hs : list msg)
+         (obs : list (prog_obs * prog_obs * bool)) : bool :=
+  match hs, obs with
+  | [], [] => true
+  | m :: hs', (n, _, _) :: obs' =>
+    let as_ := map Z.of_nat (seq 0 (length prev)) in
+    let '(st1, r) := deliver clears {| ms_blk := keeper_of_rows prev; ms_ptr := ptr |} m in
+    let rej := match r with MRejected => true | MExecuted _ => false end in
+    Bool.eqb rej (p_rej n) &&
+    (if rej then list_eqb row_eqb (table_of_keeper as_ msg_keys (ms_blk st1)) (p_state n)
+     else row_nonce (table_of_keeper as_ msg_keys (ms_blk st1)) (m_from m) =? row_nonce (p_state n) (m_from m)) &&
+    model_msgs clears (p_state n) (ms_ptr st1) hs' obs'
+  | _, _ => false
+  end.
+
+Definition mismatch_msgs (c : msgs_case) : bool :=
+  negb (model_msgs Nib.Gen.C03Facts.c03_ethereumtx_clears_on_every_return
+                   (mt_init_n (mc_trace c)) None (mc_hdrs c) (mt_msgs (mc_trace c))).
+
 Definition mismatch (c : case) : bool :=
-  match c with CSeq t => mismatch_seq t | CProg p => mismatch_prog p end.
+  match c with CSeq t => mismatch_seq t | CProg p => mismatch_prog p | CMsgs m => mismatch_msgs m end.
 
 Definition violates (c : case) : bool :=
-  match c with CSeq t => negb (Pb t) | CProg p => negb (Pprog_b (pc_nib p) (pc_geth p)) end.
+  match c with
+  | CSeq t => negb (Pb t)
+  | CProg p => negb (Pprog_b (pc_nib p) (pc_geth p))
+  | CMsgs m => negb (Pmsgs_b (mc_trace m))
+  end.
 
 (** case constructors used by the generated cases file *)
 Definition mk_obs (rs : list ret) (tb : list arow) : tx_obs := {| o_rets := rs; o_table := tb |}.
@@ -80,3 +134,9 @@ Definition mk_pobs (rej : bool) (gas err : Z) (ret logs : list Z) (st : list aro
   {| p_rej := rej; p_gas := gas; p_err := err; p_ret := ret; p_logs := logs; p_state := st |}.
 Definition mk_prog (quot refund used_pre : Z) (n g : prog_obs) : case :=
   CProg {| pc_quot := quot; pc_refund := refund; pc_used_pre := used_pre; pc_nib := n; pc_geth := g |}.
+Definition mk_hdr (from nonce gas price value : Z) (create : bool) (nz z al_addrs al_keys used : Z) : msg :=
+  {| m_from := from; m_nonce := nonce; m_gas := gas; m_price := price; m_value := value;
+     m_create := create; m_nz := nz; m_z := z; m_al_addrs := al_addrs; m_al_keys := al_keys;
+     m_ops := [OSetNonce from nonce; OSetNonce from (nonce + 1)]; m_used := used |}.
+Definition mk_msgs (init_n init_g : list arow) (hdrs : list msg) (obs : list (prog_obs * prog_obs * bool)) : case :=
+  CMsgs {| mc_trace := {| mt_init_n := init_n; mt_init_g := init_g; mt_msgs := obs |}; mc_hdrs := hdrs |}.
